@@ -146,7 +146,46 @@ def run(ctx, prog, res):
     f = prog.require_fn("opening_hours::localization::coordinates::Coordinates::new")
     sh = flow.shape(f, 0)
     r6.check(re.fullmatch(r"alt\(Option::None\{\} \| Option::Some\{0: Coordinates\{0: Coordinates::new\(p1, p2\)@Some\.0\}\}\)", sh) is not None, {"fn": f.id, "returns": sh}, "C11.R6:new", "Coordinates::new is not a plain wrapper of sunrise::Coordinates::new(lat, lon): %s" % sh, lib.where_of(f))
+    # path by path: `None` is returned only where the solar library said None, `Some` only where it said Some
+    import pathterms
+    LIBCALL = "Coordinates::new(p1, p2)"
+    n_paths = 0
+    for rb, b in f.live_blocks():
+        if b["term"]["k"] != "return":
+            continue
+        for path in pathterms.acyclic_paths(f, rb):
+            n_paths += 1
+            ret = flow.shape_on(f, 0, path)
+            conds = [(flow.shape_on(f, op, path), taken, excl) for _, op, taken, excl in pathterms.conditions(f, path)]
+            lib_none = any(t == "discr(%s)" % LIBCALL and ((taken == [0]) or (taken is None and 1 in (excl or []))) for t, taken, excl in conds)
+            lib_some = any(t == "discr(%s)" % LIBCALL and ((taken == [1]) or (taken is None and 0 in (excl or []))) for t, taken, excl in conds)
+            other = [t for t, _, _ in conds if t != "discr(%s)" % LIBCALL]
+            if ret.startswith("Option::None"):
+                r6.check(lib_none, {"path_returns": "None", "on_the_library_None_branch": True}, "C11.R6:none-path", "Coordinates::new returns None on a path where the solar library did not reject the pair (conditions: %s): a pair the documentation accepts (|lat| <= 90, |lon| <= 180) is refused" % [c[0] for c in conds], lib.where_of(f))
+            else:
+                r6.check(lib_some and not other, {"path_returns": "Some", "on_the_library_Some_branch": True}, "C11.R6:some-path", "Coordinates::new returns %s under conditions %s" % (ret, [c[0] for c in conds]), lib.where_of(f))
+    r6.check(n_paths >= 2, {"return_paths": n_paths}, "C11.R6:FLOOR", "FLOOR: Coordinates::new has %d return paths" % n_paths)
     for nm in ("lat", "lon"):
         g = prog.require_fn("opening_hours::localization::coordinates::Coordinates::" + nm)
         sh = flow.shape(g, 0)
         r6.check(re.fullmatch(r"Coordinates::%s\(p1\.0\)" % nm, sh) is not None, {"fn": g.id, "returns": sh}, "C11.R6:%s" % nm, "Coordinates::%s returns %s" % (nm, sh), lib.where_of(g))
+
+    # R7 -------------------------------------------------------------------------------------
+    r7 = res.rule("C11.R7", "the zone inferred from coordinates is the chrono-tz zone whose name is exactly the name the finder returns for (lon, lat): the name is looked up unmodified, in a table that pairs every zone of TZ_VARIANTS with its own unmodified name (or is parsed as a zone name), and only an unknown name falls back to UTC")
+    fc = prog.require_fn("opening_hours::localization::localize::TzLocation::<chrono_tz::timezones::Tz>::from_coords")
+    sh = flow.shape(fc, 0, depth=9)
+    NAME = r"DefaultFinder::get_tz_name\(static:\w+, Coordinates::lon\(p1\), Coordinates::lat\(p1\)\)"
+    m_map = re.search(r"HashMap::get\(static:(\w+), (%s)\)" % NAME, sh) or re.search(r"BTreeMap::get\(static:(\w+), (%s)\)" % NAME, sh)
+    m_parse = re.search(r"(?:str::parse|Tz::from_str|::from_str)\((%s)\)" % NAME, sh)
+    r7.check(bool(m_map or m_parse), {"fn": fc.id.split("::")[-1], "lookup_key": "the finder's name, unmodified"}, "C11.R7:key",
+             "TzLocation::from_coords does not look the finder's zone name up as it is: %s - names that differ only in what was normalised away (`Etc/GMT+3` / `Etc/GMT-3`) resolve to one zone" % sh[:300], lib.where_of(fc))
+    if m_map:
+        static = m_map.group(1)
+        inits = [f for k, f in prog.fns.items() if k.startswith(fc.id + "::" + static + "::{closure")]
+        pair = [f for f in inits if re.fullmatch(r"tuple\(Tz::name\(p2\), p2\)", flow.shape(f, 0))]
+        coll = [f for f in inits if re.fullmatch(r"Iterator::collect\(Iterator::map\((?:Iterator::copied\(|Iterator::cloned\()?slice::iter\(static:TZ_VARIANTS\)\)?, closure\[\]\)\)", flow.shape(f, 0))]
+        r7.check(bool(pair), {"table": static, "entry": "(tz.name(), tz)"}, "C11.R7:entry", "the entries of %s are not (tz.name(), tz): %s" % (static, [flow.shape(f, 0)[:120] for f in inits]), lib.where_of(fc))
+        r7.check(bool(coll), {"table": static, "built_from": "every zone of chrono_tz::TZ_VARIANTS"}, "C11.R7:all", "%s is not collected from every zone of TZ_VARIANTS: %s" % (static, [flow.shape(f, 0)[:160] for f in inits]), lib.where_of(fc))
+    fb = [f for k, f in prog.fns.items() if k.startswith(fc.id + "::{closure")]
+    r7.check(any(flow.shape(f, 0) == "const:UTC" for f in fb) or "const:UTC" in sh, {"fallback": "UTC"}, "C11.R7:fallback", "the fallback for an unknown zone name is not UTC", lib.where_of(fc))
+    r7.floor(3)
